@@ -89,7 +89,7 @@ Proof.
   cbn [gv_is_zero]. induction fs as [|[[[n e] i] v] r IH]; [discriminate|].
   cbn [existsb forallb nzw]. intros H. apply orb_true_iff in H. destruct H as [H|H].
   - apply andb_true_iff in H. destruct H as [H _]. apply andb_true_iff in H. destruct H as [_ H].
-    destruct (gv_is_zero v); [discriminate H | reflexivity].
+    destruct (if i then match v with VNil => true | _ => false end else gv_is_zero v); [discriminate H | reflexivity].
   - rewrite (IH H). apply andb_false_r.
 Qed.
 
